@@ -26,3 +26,11 @@ def implies(a, b):
 def prefix(lst, k):
     """the first k elements (0 <= k <= len)"""
     return lst[:k]
+
+
+def extern_of(fct, type_ids, scope_fqn):
+    """the extern type declaration that the (possibly relative) type name denotes, seen from scope_fqn.
+    Symbolically an uninterpreted function of (type name, scope): which declaration it is, is C07's subject."""
+    from dznpy.ast_view import find_fqn
+    from dznpy.ast import Extern
+    return find_fqn(fct, type_ids, scope_fqn).get_single_instance(Extern)
